@@ -48,6 +48,10 @@ pub struct SchedCase {
     /// (global step index, choice among the other runnable threads)
     pub preempt: Vec<(u32, u8)>,
     pub first: u8,
+    /// how many consecutive full-queue retries a thread makes before the scheduler
+    /// lets another thread run (0: yield at once)
+    #[serde(default)]
+    pub patience: u32,
 }
 
 impl SchedCase {
@@ -85,6 +89,8 @@ struct St {
     trace_events: bool,
     max_map_len: usize,
     lonely_spins: u32,
+    patience: u32,
+    patience_left: u32,
     /// (order, thread, site): the moment a thread *left* a send-type switch point,
     /// i.e. the moment its operation was actually put into the queue
     departures: Vec<(u32, usize, u16)>,
@@ -248,8 +254,14 @@ impl Shared {
             // the caller is about to sleep and retry: yield to somebody else
             st.retry_yields += 1;
             let others = Self::others_runnable(&st, me);
+            if !others.is_empty() && st.patience_left > 0 {
+                // keep retrying: the other threads are simply not scheduled for a while
+                st.patience_left -= 1;
+                return;
+            }
             if let Some(t) = others.first().copied() {
                 st.lonely_spins = 0;
+                st.patience_left = st.patience;
                 let _st = self.switch_to(st, me, t);
             } else {
                 st.lonely_spins += 1;
@@ -417,6 +429,8 @@ pub fn run_sched_case(case: &SchedCase, prop: &str, trace: bool) -> SchedRun {
             finished: vec![false; n],
             blocked: vec![None; n],
             preempt: case.preempt.clone(),
+            patience: case.patience,
+            patience_left: case.patience,
             in_sync: vec![false; n],
             trace_events: trace || prop == "C12",
             ..St::default()
@@ -921,7 +935,7 @@ fn recency_strategy(thorough: bool) -> BoxedStrategy<SchedCase> {
             let mut preempt: Vec<(u32, u8)> = preempt.into_iter().map(|(f, c)| (1 + ((f as u64 * est_len as u64) >> 16) as u32, c)).collect();
             preempt.sort();
             preempt.dedup_by_key(|p| p.0);
-            SchedCase { cfg, init, threads, preempt, first }
+            SchedCase { cfg, init, threads, preempt, first, patience: 0 }
         })
         .boxed()
 }
@@ -950,7 +964,7 @@ pub fn sched_strategy(prop: &str, thorough: bool) -> BoxedStrategy<SchedCase> {
                 Just(max_steps),
             )
         })
-        .prop_map(|(cfg, init, threads, preempt, first, _max_steps)| {
+        .prop_map(move |(cfg, init, threads, preempt, first, _max_steps)| {
             // place the preemptions inside the expected length of the execution
             // (monotone in the generated fraction, so shrinking moves them earlier)
             let total_ops: u32 = threads.iter().map(|t| t.len() as u32).sum();
@@ -958,7 +972,9 @@ pub fn sched_strategy(prop: &str, thorough: bool) -> BoxedStrategy<SchedCase> {
             let mut preempt: Vec<(u32, u8)> = preempt.into_iter().map(|(f, c)| (1 + ((f as u64 * est_len as u64) >> 16) as u32, c)).collect();
             preempt.sort();
             preempt.dedup_by_key(|p| p.0);
-            SchedCase { cfg, init, threads, preempt, first }
+            let has_fill = threads.iter().flatten().any(|o| matches!(o, TOp::Fill { .. }));
+            let patience = if has_fill && first % 2 == 0 { 250 } else { 0 };
+            SchedCase { cfg, init, threads, preempt, first, patience }
         })
         .boxed()
 }
@@ -969,22 +985,22 @@ fn litmus() -> Vec<(&'static str, SchedCase)> {
     let ins = |k, w| TOp::Insert { k, w };
     let get = |k| TOp::Get { k };
     vec![
-        ("insert || get", SchedCase { cfg: base(None, None), init: vec![ins(0, 1)], threads: vec![vec![ins(0, 1)], vec![get(0), get(0)]], preempt: vec![], first: 0 }),
-        ("insert || insert || get", SchedCase { cfg: base(Some(4), None), init: vec![], threads: vec![vec![ins(0, 1)], vec![ins(0, 2)], vec![get(0)]], preempt: vec![], first: 0 }),
-        ("insert || invalidate || get", SchedCase { cfg: base(None, None), init: vec![ins(0, 1)], threads: vec![vec![ins(0, 1)], vec![TOp::Invalidate { k: 0 }], vec![get(0)]], preempt: vec![], first: 0 }),
-        ("insert || sync", SchedCase { cfg: base(Some(2), None), init: vec![ins(1, 1)], threads: vec![vec![ins(0, 1), ins(0, 2)], vec![TOp::Sync]], preempt: vec![], first: 0 }),
-        ("update || sync || get", SchedCase { cfg: base(Some(3), None), init: vec![ins(0, 1)], threads: vec![vec![ins(0, 3)], vec![TOp::Sync], vec![get(0)]], preempt: vec![], first: 0 }),
-        ("insert; advance; sync || invalidate_all; get", SchedCase { cfg: base(None, None), init: vec![], threads: vec![vec![ins(0, 1), TOp::Advance { ns: 1 }, TOp::Sync], vec![TOp::InvalidateAll, get(0), get(0)]], preempt: vec![], first: 0 }),
-        ("get; advance || invalidate_all; sync; get", SchedCase { cfg: base(None, None), init: vec![ins(0, 1), TOp::Sync, TOp::Advance { ns: 1 }], threads: vec![vec![get(0), TOp::Advance { ns: 1 }], vec![TOp::InvalidateAll, TOp::Sync, get(0), get(0)]], preempt: vec![], first: 0 }),
-        ("sync || invalidate; insert; get (old value at its ttl)", SchedCase { cfg: base(None, Some(SEC)), init: vec![ins(0, 1), TOp::Sync], threads: vec![vec![TOp::Sync], vec![TOp::Advance { ns: SEC }, TOp::Invalidate { k: 0 }, ins(0, 1), get(0)]], preempt: vec![], first: 0 }),
-        ("sync || update; get (old value at its ttl)", SchedCase { cfg: base(Some(2), Some(SEC)), init: vec![ins(0, 1), ins(1, 1), TOp::Sync], threads: vec![vec![TOp::Sync], vec![TOp::Advance { ns: SEC }, ins(0, 1), get(0)]], preempt: vec![], first: 0 }),
-        ("insert; insert || sync; sync (capacity 1)", SchedCase { cfg: base(Some(1), None), init: vec![], threads: vec![vec![ins(0, 1), ins(1, 1), get(1)], vec![TOp::Sync, TOp::Sync]], preempt: vec![], first: 0 }),
-        ("update; invalidate || sync || get", SchedCase { cfg: base(Some(2), None), init: vec![ins(0, 1), TOp::Sync], threads: vec![vec![ins(0, 2), TOp::Invalidate { k: 0 }], vec![TOp::Sync], vec![get(0)]], preempt: vec![], first: 0 }),
-        ("invalidate || re-insert; sync; get(c); insert(c, heavy); sync", SchedCase { cfg: base(Some(2), None), init: vec![ins(0, 1), TOp::Sync], threads: vec![vec![TOp::Invalidate { k: 0 }], vec![ins(0, 1), TOp::Sync, get(1), TOp::Sync, ins(1, 2), TOp::Sync, get(1)]], preempt: vec![], first: 0 }),
-        ("invalidate || re-insert; get(c); insert(c, heavy) (no explicit sync)", SchedCase { cfg: base(Some(2), None), init: vec![ins(0, 1), TOp::Sync], threads: vec![vec![TOp::Invalidate { k: 0 }], vec![ins(0, 1), get(1), get(1), ins(1, 2), get(0), get(1)]], preempt: vec![], first: 0 }),
-        ("sync || invalidate; insert; get (old value at its tti)", SchedCase { cfg: Cfg { tti: Some(SEC), ..base(None, None) }, init: vec![ins(0, 1), TOp::Sync], threads: vec![vec![TOp::Sync], vec![TOp::Advance { ns: SEC }, TOp::Invalidate { k: 0 }, ins(0, 1), get(0)]], preempt: vec![], first: 0 }),
-        ("sync || invalidate_all; invalidate; insert; get", SchedCase { cfg: base(None, None), init: vec![ins(0, 1), TOp::Sync, TOp::Advance { ns: 1 }], threads: vec![vec![TOp::Sync], vec![TOp::InvalidateAll, TOp::Invalidate { k: 0 }, ins(0, 1), get(0)]], preempt: vec![], first: 0 }),
-        ("invalidate_all || invalidate_all (clock advancing)", SchedCase { cfg: base(None, None), init: vec![ins(0, 1), TOp::Advance { ns: 1 }], threads: vec![vec![TOp::InvalidateAll], vec![TOp::Advance { ns: 1 }, ins(1, 1), TOp::Advance { ns: 1 }, TOp::InvalidateAll, get(1)]], preempt: vec![], first: 0 }),
+        ("insert || get", SchedCase { cfg: base(None, None), init: vec![ins(0, 1)], threads: vec![vec![ins(0, 1)], vec![get(0), get(0)]], preempt: vec![], first: 0, patience: 0 }),
+        ("insert || insert || get", SchedCase { cfg: base(Some(4), None), init: vec![], threads: vec![vec![ins(0, 1)], vec![ins(0, 2)], vec![get(0)]], preempt: vec![], first: 0, patience: 0 }),
+        ("insert || invalidate || get", SchedCase { cfg: base(None, None), init: vec![ins(0, 1)], threads: vec![vec![ins(0, 1)], vec![TOp::Invalidate { k: 0 }], vec![get(0)]], preempt: vec![], first: 0, patience: 0 }),
+        ("insert || sync", SchedCase { cfg: base(Some(2), None), init: vec![ins(1, 1)], threads: vec![vec![ins(0, 1), ins(0, 2)], vec![TOp::Sync]], preempt: vec![], first: 0, patience: 0 }),
+        ("update || sync || get", SchedCase { cfg: base(Some(3), None), init: vec![ins(0, 1)], threads: vec![vec![ins(0, 3)], vec![TOp::Sync], vec![get(0)]], preempt: vec![], first: 0, patience: 0 }),
+        ("insert; advance; sync || invalidate_all; get", SchedCase { cfg: base(None, None), init: vec![], threads: vec![vec![ins(0, 1), TOp::Advance { ns: 1 }, TOp::Sync], vec![TOp::InvalidateAll, get(0), get(0)]], preempt: vec![], first: 0, patience: 0 }),
+        ("get; advance || invalidate_all; sync; get", SchedCase { cfg: base(None, None), init: vec![ins(0, 1), TOp::Sync, TOp::Advance { ns: 1 }], threads: vec![vec![get(0), TOp::Advance { ns: 1 }], vec![TOp::InvalidateAll, TOp::Sync, get(0), get(0)]], preempt: vec![], first: 0, patience: 0 }),
+        ("sync || invalidate; insert; get (old value at its ttl)", SchedCase { cfg: base(None, Some(SEC)), init: vec![ins(0, 1), TOp::Sync], threads: vec![vec![TOp::Sync], vec![TOp::Advance { ns: SEC }, TOp::Invalidate { k: 0 }, ins(0, 1), get(0)]], preempt: vec![], first: 0, patience: 0 }),
+        ("sync || update; get (old value at its ttl)", SchedCase { cfg: base(Some(2), Some(SEC)), init: vec![ins(0, 1), ins(1, 1), TOp::Sync], threads: vec![vec![TOp::Sync], vec![TOp::Advance { ns: SEC }, ins(0, 1), get(0)]], preempt: vec![], first: 0, patience: 0 }),
+        ("insert; insert || sync; sync (capacity 1)", SchedCase { cfg: base(Some(1), None), init: vec![], threads: vec![vec![ins(0, 1), ins(1, 1), get(1)], vec![TOp::Sync, TOp::Sync]], preempt: vec![], first: 0, patience: 0 }),
+        ("update; invalidate || sync || get", SchedCase { cfg: base(Some(2), None), init: vec![ins(0, 1), TOp::Sync], threads: vec![vec![ins(0, 2), TOp::Invalidate { k: 0 }], vec![TOp::Sync], vec![get(0)]], preempt: vec![], first: 0, patience: 0 }),
+        ("invalidate || re-insert; sync; get(c); insert(c, heavy); sync", SchedCase { cfg: base(Some(2), None), init: vec![ins(0, 1), TOp::Sync], threads: vec![vec![TOp::Invalidate { k: 0 }], vec![ins(0, 1), TOp::Sync, get(1), TOp::Sync, ins(1, 2), TOp::Sync, get(1)]], preempt: vec![], first: 0, patience: 0 }),
+        ("invalidate || re-insert; get(c); insert(c, heavy) (no explicit sync)", SchedCase { cfg: base(Some(2), None), init: vec![ins(0, 1), TOp::Sync], threads: vec![vec![TOp::Invalidate { k: 0 }], vec![ins(0, 1), get(1), get(1), ins(1, 2), get(0), get(1)]], preempt: vec![], first: 0, patience: 0 }),
+        ("sync || invalidate; insert; get (old value at its tti)", SchedCase { cfg: Cfg { tti: Some(SEC), ..base(None, None) }, init: vec![ins(0, 1), TOp::Sync], threads: vec![vec![TOp::Sync], vec![TOp::Advance { ns: SEC }, TOp::Invalidate { k: 0 }, ins(0, 1), get(0)]], preempt: vec![], first: 0, patience: 0 }),
+        ("sync || invalidate_all; invalidate; insert; get", SchedCase { cfg: base(None, None), init: vec![ins(0, 1), TOp::Sync, TOp::Advance { ns: 1 }], threads: vec![vec![TOp::Sync], vec![TOp::InvalidateAll, TOp::Invalidate { k: 0 }, ins(0, 1), get(0)]], preempt: vec![], first: 0, patience: 0 }),
+        ("invalidate_all || invalidate_all (clock advancing)", SchedCase { cfg: base(None, None), init: vec![ins(0, 1), TOp::Advance { ns: 1 }], threads: vec![vec![TOp::InvalidateAll], vec![TOp::Advance { ns: 1 }, ins(1, 1), TOp::Advance { ns: 1 }, TOp::InvalidateAll, get(1)]], preempt: vec![], first: 0, patience: 0 }),
     ]
 }
 
@@ -1223,7 +1239,7 @@ fn small_scope(a: &WorkerArgs, prop: &str, inflight: &std::path::Path) -> (u64, 
                     if (index / a.nworkers + a.seed) % stride != 0 {
                         continue;
                     }
-                    let base = SchedCase { cfg: cfg.clone(), init: init.clone(), threads: vec![p1.clone(), p2.clone()], preempt: vec![], first: 0 };
+                    let base = SchedCase { cfg: cfg.clone(), init: init.clone(), threads: vec![p1.clone(), p2.clone()], preempt: vec![], first: 0, patience: 0 };
                     for first in 0..2u8 {
                         let b = SchedCase { first, ..base.clone() };
                         let r0 = run_guarded(&b, prop, false);
